@@ -14,6 +14,7 @@ CONSTANTS
   TaxNum = 1
   TaxDen = 10
   Kinds = {"seed", "err"}
+  MaxZH = 0
 VIEW View
 INVARIANTS
   Inv_C18_Due
@@ -25,4 +26,11 @@ PROPERTIES
   Act_C18_Stable
   Act_C13_OnceOnTime
   Act_Rejected_NoEffect
+  Act_X18_ResultHeight
+  Act_X18_DupReplace
+  Act_X18_DupOrphan
+  Act_X18_DupResult
+  Act_X18_LateAnswer
+  Act_X18_WrapStale
+  Act_X18_ZeroHeightQueue
 CHECK_DEADLOCK FALSE
